@@ -210,6 +210,23 @@ func c09CheckImage(img, scratch []byte, hb []byte) (sig, what string) {
 	if !bytes.Equal(img, scratch) {
 		return "unexplained:image-changed", "second ReadHeader;WriteHeader changed the image"
 	}
+	// the same ROM object after its image was edited (title, a vector, the version bytes): reading the new
+	// header and writing it back must leave the EDITED image unchanged -- nothing of the earlier header lingers
+	for _, edit := range [][]int{{0x13, 0x3A, 0x3B}, {0x2A}, {0x24}, {0x00, 0x4F}} {
+		for _, o := range edit {
+			img[0x7FB0+o] ^= 0xA5
+		}
+		copy(scratch, img)
+		if err := rom.ReadHeader(); err != nil {
+			return "unexplained:rom-read-error", err.Error()
+		}
+		if err := rom.WriteHeader(); err != nil {
+			return "unexplained:rom-write-error", err.Error()
+		}
+		if !bytes.Equal(img, scratch) {
+			return "unexplained:image-changed", fmt.Sprintf("after editing header bytes %v of the image (same ROM object), ReadHeader;WriteHeader changed the image at file offset $%06x: $%02x instead of $%02x", edit, firstDiff(img, scratch), img[firstDiff(img, scratch)], scratch[firstDiff(img, scratch)])
+		}
+	}
 	return "", ""
 }
 
